@@ -151,6 +151,46 @@ def run(ck):
                     ck.count('optcombo_' + o)
                     if o not in ('usage', 'diag', 'report'):
                         viol.append(dict(kind='option-combination', argv=argv, observed='%s %s' % (o, det)))
+    # 1c. several malformed inputs at once against the composition rule of the model (`guard compose`: a usage error of any
+    # input first, else the first diagnostic, else the report): sampled pairs and triples of table cells whose options do
+    # not collide
+    nb = len(c20table.BASE)
+    usable = [f for f in c20table.FIELDS if f['argv'][:nb] == c20table.BASE]
+    ncomb = 120 if ck.tier == 'quick' else 2500
+    done = 0
+    tries = 0
+    while done < ncomb and tries < 20 * ncomb:
+        tries += 1
+        sel = rng.sample(usable, rng.choice([2, 2, 3]))
+        names = []
+        ok_ = True
+        for f in sel:
+            ex = [a.split('=')[0] for a in f['argv'][nb:]]
+            if f['idx'] < nb:
+                ex.append('base%d' % f['idx'])
+            if set(ex) & set(names):
+                ok_ = False
+            names += ex
+        if not ok_:
+            continue
+        argv = list(c20table.BASE)
+        toks = []
+        for f in sel:
+            c = rng.choice([c_ for c_ in c20table.CLASSES if c20table.mutated(f, c_) is not None])
+            mut = c20table.mutated(f, c)
+            if f['idx'] < nb:
+                argv[f['idx']] = mut[f['idx']]
+            argv += mut[nb:]
+            toks += [f['name'], c]
+        o, det = fuzzcmd.outcome(argv, limit=60)
+        want = d.ask('guard compose', *toks)
+        done += 1
+        ck.case(('compose', tuple(toks)), True)
+        ck.count('compose_' + o)
+        if o not in ('usage', 'diag', 'report', 'timeout'):
+            viol.append(dict(kind='compose', argv=argv, observed='%s %s' % (o, det), cells=toks))
+        elif o != 'timeout' and o != want:
+            dis.append(dict(why='inputs %r together: implementation %s, composition rule %s' % (toks, o, want), argv=argv))
     # 1d. runs whose *numerical* part fails (singular matrix of doubled conductors, an overflowing sweep, a frequency
     # at the bottom of the float range), each also with the timing option: the diagnostic, whatever else was asked to be printed
     kfail = [['-f', '7', '-w', '4,0,0,0,1,0,0,0.001', '-w', '4,0,0,0,1,0,0,0.001', '--excitation-pulse=1'],
